@@ -244,12 +244,25 @@ func TestModel(t *testing.T) {
 	})
 }
 
-// TestMemoryConcurrentStore: racing Stores of one (id, created) - exactly one may win,
-// and the stored row is the winner's.
-func TestMemoryConcurrentStore(t *testing.T) {
-	rounds := kit.Pick(3000, 60000)
+// TestConcurrentStore: racing Stores of one (id, created) - exactly one may win, and the
+// stored row is the winner's. MemoryMetastore gets many rounds (its own locking is the
+// thing under test); the SQL and DynamoDB metastores get fewer (the uniqueness guarantee
+// there comes from the database, i.e. from the fake, but the metastore must map the
+// refusal to false for every loser).
+func TestConcurrentStore(t *testing.T) {
+	concurrentStore(t, "memory", persistence.NewMemoryMetastore(), kit.Pick(3000, 60000))
+	for _, name := range []string{"sql-mysql", "sql-postgres", "dynamodb-v1", "dynamodb-v2"} {
+		name := name
+		kit.Scripted(t, func(rt *rapid.T) {
+			b := newBackend(rt, name)
+			defer b.cleanup()
+			concurrentStore(t, name, b.ms, kit.Pick(300, 6000))
+		})
+	}
+}
+
+func concurrentStore(t *testing.T, backend string, ms appencryption.Metastore, rounds int) {
 	const writers = 8
-	ms := persistence.NewMemoryMetastore()
 	for r := 0; r < rounds; r++ {
 		id, created := fmt.Sprintf("_IK_%d", r%7), int64(1_700_000_000+r)
 		var wg sync.WaitGroup
@@ -276,11 +289,11 @@ func TestMemoryConcurrentStore(t *testing.T) {
 		}
 		got, _ := ms.Load(ctx, id, created)
 		if n != 1 || got == nil || got.EncryptedKey[0] != byte(winner) {
-			msg := fmt.Sprintf("MemoryMetastore: %d of %d racing Stores of one (id, created) returned true; stored row belongs to writer %v, winner %d", n, writers, got, winner)
+			msg := fmt.Sprintf(backend+": %d of %d racing Stores of one (id, created) returned true; stored row belongs to writer %v, winner %d", n, writers, got, winner)
 			kit.Rec.Violation(msg)
 			t.Fatalf("C13 violated: %s (round %d)", msg, r)
 		}
 	}
 	kit.Rec.Enumerated(int64(rounds), 0)
-	kit.Rec.LabelN("concurrent-store-rounds", int64(rounds))
+	kit.Rec.LabelN("concurrent-store-rounds:"+backend, int64(rounds))
 }
